@@ -154,7 +154,7 @@ def sd_verdict(args):
         return None, str(ex)
     out = p.stdout.decode("utf-8", "replace")
     # systemd 252 keeps an unknown escape verbatim and warns; the oracle rejects such lines on purpose
-    accept = p.returncode == 0 and "Ignoring unknown escape sequences" not in out and "ignoring" not in out.lower().replace("ignoring unknown escape sequences", "")
+    accept = p.returncode == 0 and "Ignoring unknown escape sequences" not in out
     return accept, out.strip().replace("\n", " | ")[:300]
 
 
@@ -201,6 +201,7 @@ def validate_decoder(ctx, work, case_lines, seed):
         return {"decoder_lines_checked": 0, "decoder_disagreements": 0, "decoder_validation": "failed: decoder run rc=%d (%d of %d answers)" % (rc, len(verdicts), len(lines))}
     with ThreadPoolExecutor(max_workers=8) as ex:
         sd = list(ex.map(sd_verdict, [(os.path.join(work, "u%04d" % i), l) for i, l in enumerate(lines)]))
+    shutil.rmtree(work, ignore_errors=True)
     dis, acc, rej = [], 0, 0
     for l, v, (a, msg) in zip(lines, verdicts, sd):
         if a is None:
